@@ -3,7 +3,9 @@
 set -eu
 wt=$1; id=$2; dst=/verif/seeded/$id
 mkdir -p $dst
-git -C $wt diff -- . > $dst/patch.diff
+# new library files are not in `git diff`: mark untracked non-test .go files as intent-to-add first
+git -C $wt status --porcelain --untracked-files=all | awk '$1=="??"{print $2}' | grep '\.go$' | grep -v '_test\.go$' | while read f; do git -C $wt add -N "$f"; done
+git -C $wt diff -- . ':!*_test.go' > $dst/patch.diff
 : > $dst/demo_location.txt
 git -C $wt status --porcelain --untracked-files=all | awk '$1=="??"{print $2}' | while read f; do
   case "$f" in
